@@ -276,6 +276,22 @@ func createImageFunctions() { //nolint:funlen // this is a group of related func
 	createVectorImageFunctions(cdata)
 }
 
+// Pen coordinates are pixels. The curve segments are subdivided in proportion to their size (and huge or non finite
+// values don't convert to a pixel position): anything far outside the largest possible image is refused.
+const maxPenCoord = 16 * MaxImageDimension
+
+func penCoords(args []object.Object) ([]float32, object.Object) {
+	res := make([]float32, len(args))
+	for i, a := range args {
+		v := a.(object.Float).Value
+		if !(v >= -maxPenCoord && v <= maxPenCoord) { // (also NaN)
+			return nil, object.Errorf("coordinate %v out of range (-%d to %d)", a.Inspect(), maxPenCoord, maxPenCoord)
+		}
+		res[i] = float32(int(v))
+	}
+	return res, nil
+}
+
 func createVectorImageFunctions(cdata ImageMap) { //nolint:funlen // this is a group of related functions.
 	imgFn := object.Extension{
 		Name:       "image.move_to",
@@ -291,9 +307,11 @@ func createVectorImageFunctions(cdata ImageMap) { //nolint:funlen // this is a g
 			if !ok {
 				return object.Errorf("image %q not found", args[0].(object.String).Value)
 			}
-			x := int(args[1].(object.Float).Value)
-			y := int(args[2].(object.Float).Value)
-			img.Vect.MoveTo(float32(x), float32(y))
+			c, oerr := penCoords(args[1:])
+			if oerr != nil {
+				return oerr
+			}
+			img.Vect.MoveTo(c[0], c[1])
 			return args[0]
 		},
 	}
@@ -306,9 +324,11 @@ func createVectorImageFunctions(cdata ImageMap) { //nolint:funlen // this is a g
 		if !ok {
 			return object.Errorf("image %q not found", args[0].(object.String).Value)
 		}
-		x := int(args[1].(object.Float).Value)
-		y := int(args[2].(object.Float).Value)
-		img.Vect.LineTo(float32(x), float32(y))
+		c, oerr := penCoords(args[1:])
+		if oerr != nil {
+			return oerr
+		}
+		img.Vect.LineTo(c[0], c[1])
 		return args[0]
 	}
 	MustCreate(imgFn)
@@ -394,13 +414,11 @@ func createVectorImageFunctions(cdata ImageMap) { //nolint:funlen // this is a g
 		if !ok {
 			return object.Errorf("image %q not found", args[0].(object.String).Value)
 		}
-		x1 := int(args[1].(object.Float).Value)
-		y1 := int(args[2].(object.Float).Value)
-		x2 := int(args[3].(object.Float).Value)
-		y2 := int(args[4].(object.Float).Value)
-		x3 := int(args[5].(object.Float).Value)
-		y3 := int(args[6].(object.Float).Value)
-		img.Vect.CubeTo(float32(x1), float32(y1), float32(x2), float32(y2), float32(x3), float32(y3))
+		c, oerr := penCoords(args[1:])
+		if oerr != nil {
+			return oerr
+		}
+		img.Vect.CubeTo(c[0], c[1], c[2], c[3], c[4], c[5])
 		return args[0]
 	}
 	MustCreate(imgFn)
@@ -415,11 +433,11 @@ func createVectorImageFunctions(cdata ImageMap) { //nolint:funlen // this is a g
 		if !ok {
 			return object.Errorf("image %q not found", args[0].(object.String).Value)
 		}
-		x1 := int(args[1].(object.Float).Value)
-		y1 := int(args[2].(object.Float).Value)
-		x2 := int(args[3].(object.Float).Value)
-		y2 := int(args[4].(object.Float).Value)
-		img.Vect.QuadTo(float32(x1), float32(y1), float32(x2), float32(y2))
+		c, oerr := penCoords(args[1:])
+		if oerr != nil {
+			return oerr
+		}
+		img.Vect.QuadTo(c[0], c[1], c[2], c[3])
 		return args[0]
 	}
 	MustCreate(imgFn)
